@@ -714,8 +714,9 @@ def check(tier, seed, jobs):
             curved = not all(isinstance(v, str) or kernel.is_polygonal(model.from_jsonable(v))
                              for v in c["operands"])
             if tier == "thorough":
+                wthor = max(1.0, counts[i]["all"] / 300000.0)
                 if n > 10000 or curved:
-                    want = 2500 if not curved else 600
+                    want = max(150, int(6000 / wthor))
                 else:
                     want = n
             else:
@@ -757,14 +758,17 @@ def check(tier, seed, jobs):
         ntab = counts[i].get("tables", 0)
         if ntab and is_cat:
             weight = max(1.0, counts[i]["all"] / 300000.0)
-            want = ntab if tier == "thorough" else max(3, min(ntab, 12, int(40 / weight)))
+            if tier == "thorough":
+                want = min(ntab, max(60, int(4000 / weight)))  # all of them unless the case is expensive
+            else:
+                want = max(3, min(ntab, 12, int(40 / weight)))
             tk = set(1 + ((seed + (j * ntab) // want) % ntab) for j in range(want))
             # the windows in which a table is being filled (its content changes): every event
             # from shortly before the change to just after it
             for ev in counts[i].get("tables_dirty", []):
                 lo = ev - (60 if tier == "thorough" else 24)
                 hi = ev + (80 if tier == "thorough" else 40)
-                step_w = 1 if tier == "thorough" else (4 if weight < 4 else 10)
+                step_w = (1 if weight < 4 else 3) if tier == "thorough" else (4 if weight < 4 else 10)
                 tk.update(e for e in range(max(1, lo), min(ntab, hi) + 1, step_w))
             tk = sorted(tk)
             plan[i]["table_events"] = ntab
@@ -776,14 +780,15 @@ def check(tier, seed, jobs):
         ncold = counts[i].get("cold", 0)
         if ncold and is_cat:
             hw = counts[i].get("cold_hidden", [])
+            wcold0 = max(1.0, counts[i]["all"] / 300000.0)
             ck = set()
             for a_ev, b_ev in zip(hw[:-1], hw[1:]):
                 if b_ev - a_ev <= 400:
-                    stepw = 1 if tier == "thorough" else max(1, (b_ev - a_ev) // 12)
+                    stepw = (1 if wcold0 < 4 else 4) if tier == "thorough" else max(1, (b_ev - a_ev) // 12)
                     ck.update(range(a_ev, b_ev + 2, stepw))
             for ev in hw:
                 ck.update((ev - 1, ev, ev + 1))
-            want = min(ncold, 300 if tier == "thorough" else 10)
+            want = min(ncold, max(30, int(600 / wcold0)) if tier == "thorough" else 10)
             ck.update(1 + ((seed * 13 + (j * ncold) // want) % ncold) for j in range(want))
             ck = sorted(e for e in ck if 1 <= e <= ncold)
             wcold = max(1.0, counts[i]["all"] / 300000.0)
